@@ -46,6 +46,7 @@ Proof.
         destruct (3 <=? nth 10 b 0); [auto|].
         destruct (nth 10 b 0 =? 1); [|auto].
         destruct (negb (c_allow_v2 cfg)); [auto|].
+        destruct (c_sec_enabled cfg); [auto|].
         len_test H12. rewrite (ltb_app_false _ d _ H12).
         rewrite (nth_app_small b d 11) by exact H12. auto.
   - (* Security *)
@@ -86,6 +87,7 @@ Proof.
         destruct (3 <=? nth 10 b 0); [intros; inv_step; lia|].
         destruct (nth 10 b 0 =? 1); [|intros; inv_step; lia].
         destruct (negb (c_allow_v2 cfg)); [intros; inv_step; lia|].
+        destruct (c_sec_enabled cfg); [intros; inv_step; lia|].
         len_test H12. apply Nat.ltb_ge in H12.
         destruct (negb (v2_compat _ _)); [intros; inv_step; lia|].
         destruct (stype_code _); intros; inv_step; lia.
@@ -159,6 +161,7 @@ Proof.
           apply negb_false_iff in Er. rewrite Er. lia. }
         destruct (nth 10 b 0 =? 1); [|intros; inv_step; right; split; auto; rewrite emu_closed; apply emu_pos; congruence].
         destruct (negb (c_allow_v2 cfg)); [intros; inv_step; right; split; auto; rewrite emu_closed; apply emu_pos; congruence|].
+        destruct (c_sec_enabled cfg); [intros; inv_step; right; split; auto; rewrite emu_closed; apply emu_pos; congruence|].
         len_test H12.
         destruct (negb (v2_compat _ _)); [intros; inv_step; right; split; auto; rewrite emu_closed; apply emu_pos; congruence|].
         destruct (stype_code _); intros; inv_step.
